@@ -145,7 +145,9 @@ TEXT = {
                       "(ids), refinement of the code-shaped walk to it, and string algebra for the two folds of build_node. C01_steps_recorded: "
                       "every node-internal step is a good link (sole recorded extension on the leaving side = the base of the step, sole extension "
                       "on the facing side, no palindrome, join accepted). The model is diffed verbatim with the crate for all three entry points. C01_from_reads: for every read set, K >= 4, both summarizers, every memory budget and every hash order, "
-                      "filter -> prune -> compress never panics and the nodes' canonical k-mers are a permutation of the accepted k-mers.",
+                      "filter -> prune -> compress never panics and the nodes' canonical k-mers are a permutation of the accepted k-mers. "
+                      "C01_no_exts: the same for the entry point without extensions (compress_kmers_no_exts): the extension bytes it discovers "
+                      "by probing the key set form a well-formed reciprocal table, in whatever order the hash map lists it.",
         "design_ref": "DESIGN.md section 6, C01",
         "level_note": COMMON_NOTE + "The hash map's index order is an input (observed; the theorems hold for every order). C01_from_reads discharges the table "
                       "hypotheses for every read set with empty boundary extensions (C05_table_wf: filter output is well-formed and reciprocal, also "
@@ -196,9 +198,15 @@ TEXT = {
                       "ports where the walks stopped, complemented when the k-mer lies reverse-complemented in the node; orientation parity of an "
                       "edge is forced by the strings; a palindromic k-mer forms a node by itself and may record from either strand), hence for "
                       "every read set (C03_edges_symmetric_from_reads); GInv is also decidable (ginvOK, proved sound) and evaluated on every "
-                      "pipeline graph of the crate. Equality of the adjacency set with the (K+1)-mers of the reads is an executable predicate; max_path_beam is not modelled.",
+                      "pipeline graph of the crate. Adjacency = (K+1)-mers: C03_edges_complete - in the graph built from any well-formed reciprocal table a "
+                      "recorded node extension resolves through find_link IFF the canonical k-mer it leads to is a key of the table (completeness "
+                      "of find_link, which only inspects node ends: the target of an extension recorded at a node end is itself at a node end on "
+                      "the facing side - ext_target_port, from a chain/port analysis of build_node: every non-end port of a node member is joined "
+                      "by a good link to another non-end port); C03_exts_resolve_from_reads - from reads, every recorded node extension resolves "
+                      "and is an observed (K+1)-mer; C03_observed_adjacency_recorded - conversely every observed (K+1)-mer at a node end whose "
+                      "target was retained is recorded (terminal k-mers that are their own reverse complement excluded). max_path_beam is not modelled.",
         "design_ref": "DESIGN.md section 6, C03",
-        "level_note": COMMON_NOTE + "Partial: adjacency = (K+1)-mers by execution; GInv after re-compression by execution.",
+        "level_note": COMMON_NOTE + "Partial: GInv / edge completeness after re-compression (compress_graph, censoring) by execution; max_path_beam not modelled.",
         "technique": "Lean 4 proof (case analysis of link resolution, bit-level exactness of pruning, overlap algebra of walks, invariant of the greedy best-path loop) + differential correspondence with executable predicates",
     },
     "C18": {
@@ -216,14 +224,19 @@ TEXT = {
     },
     "C04": {
         "level_text": "The full statement is written in Lean (C04_sharded_eq_direct_full) but NOT proved. Proved links of its chain: the pieces of every read "
-                      "tile it exactly with true flanks (C08), per-shard compression yields the connected components of the shard's good links (C02, "
-                      "id level), re-compression merges every node at most once and never a censored one (C09). Missing: the "
-                      "characterisation of re-compression, closure of components. The property itself is decided by running both real pipelines "
+                      "tile it exactly with true flanks (C08); TABLE LEVEL (C04_shard_tables, C04_shard_filter): for every read set and every "
+                      "configuration inside msp_sequence's contract (1<=P<=K, K>=4, injective permutation or the default), the shards are produced, "
+                      "their buckets are strictly ascending (key-disjoint), every shard's filter_kmers table is - row for row: key, extension "
+                      "set, count/labels, order - the part of the one-pass table whose keys fall into the shard's bucket, likewise the all-k-mers "
+                      "list, and every one-pass row lies in some shard (the (k-mer, extensions) stream of the tiling pieces fed with their true "
+                      "flanks IS the stream of the read; bucket purity carries over to canonical keys); per-shard compression yields the connected "
+                      "components of the shard's good links (C02, id level); re-compression is characterised on graphs satisfying GInv (C09_char). "
+                      "Missing: GInv of the combined multi-shard graph, closure of components across shards. The property itself is decided by running both real pipelines "
                       "on the same read sets (6-10 (K,P) pairs, default and random permutations, stranded and unstranded, thresholds 1-3, with "
                       "and without sharded pruning) and comparing canonical partitions, payload totals and adjacencies; both are also diffed with "
                       "the composed Lean model (per-shard hash orders passed as data).",
         "design_ref": "DESIGN.md section 6, C04",
-        "level_note": COMMON_NOTE + "Partial (_partial): the end-to-end theorem is missing; what is machine-checked are three links of the chain.",
+        "level_note": COMMON_NOTE + "Partial (_partial): the end-to-end theorem is missing; machine-checked are the table level and the per-stage links of the chain.",
         "technique": "Lean 4 proof of chain links + differential correspondence of composed pipelines with executable predicate on both real pipelines",
     },
     "C06": {
